@@ -651,11 +651,35 @@ pub fn c15_case(env: &CabiEnv, data: &[u8], st: &mut Stats) -> PResult {
     }
     let mut src = Src::new(data);
     let o = GenOpts { big: false, many: false, max_small: 4, header_names: false, ..GenOpts::default() };
-    let (bytes, d, _) = match gen_accepted(&mut src, &o) {
-        Some(x) => x,
-        None => {
-            st.class("skipped:not-accepted-by-reference");
+    let (bytes, d) = if src.chance(10) {
+        // a packet of exactly 8190..8193 bytes (the 8192-byte limit of insertions and of raw_packet's buffer)
+        let (mut m, _) = gens::gen_packet(&mut src, &o);
+        let target = *src.pick(&[8192usize, 8191, 8193, 8190]);
+        let l0 = crate::enc::encode(&m, crate::enc::Layout::Literal).bytes.len();
+        if l0 + 11 > target {
+            st.class("skipped:message-too-large-for-exact-size");
             return Ok(());
+        }
+        m.ar.push(Record { owner: Name::root(), rtype: T_TXT, class: 1, ttl: 1, rdata: Rdata::Opaque(vec![0x41; target - l0 - 11]) });
+        let bytes = crate::enc::encode(&m, crate::enc::Layout::Literal).bytes;
+        ensure!(bytes.len() == target, "HARNESS: exact-size packet has another size", "{} vs {}", bytes.len(), target);
+        match refdec::decode_strict(&bytes) {
+            Some(d) => {
+                st.class(&format!("start:exactly-{}-bytes", target));
+                (bytes, d)
+            }
+            None => {
+                st.class("skipped:not-accepted-by-reference");
+                return Ok(());
+            }
+        }
+    } else {
+        match gen_accepted(&mut src, &o) {
+            Some((b, d, _)) => (b, d),
+            None => {
+                st.class("skipped:not-accepted-by-reference");
+                return Ok(());
+            }
         }
     };
     if d.all_name_infos().iter().any(|n| n.ptrs.iter().any(|p| p.1 < 12)) {
@@ -872,7 +896,7 @@ pub fn replay_c15(data: &[u8]) -> PResult {
 pub fn check_c15(ctx: &Ctx, known: &KnownFindings) -> Report {
     let mut rep = Report::new("C15");
     let ks = known_sigs(known, "C15");
-    rep.rule = "accepted packets (small, any layout, OPT anywhere) x hook scripts of 1..10 top-level table calls (flags/set_flags/rcode/set_rcode/opcode/set_opcode/question/raw_packet/add_to_*/rename_with_raw_names/raw_name_from_str/iter_answer|nameservers|additional|edns) whose iter callbacks run nested programs on the cursor (name, rr_type, rr_class, rr_ttl, set_rr_ttl, rr_ip, set_rr_ip, set_raw_name, set_name with/without zone, delete_rr, early stop; each op on every record or on one index). The script is interpreted by cdriver.c (compiled with cc -Wall -Wextra -Werror against /repo/src/bin/c_hook/c_hook.h, called through &fn_table()) and by a native Rust twin on a second object. Oracle: identical traces (every return value, out-buffer content and length, error description), identical final packet bytes, C08 view of the C-driven object; canary-filled arenas around every out-buffer (names NUL-terminated within 256 bytes, exactly 4/16 address bytes, packet written only when it fits); abi_version == DNSSECTOR_ABI_VERSION; sizeof(FnTable) agrees; no crash (cases run in child processes; an abnormal exit is attributed to the case written to the scratch file). Non-trivial: a mutating call inside a callback followed by at least one more call; distinct = hash(packet, script).".into();
+    rep.rule = "accepted packets (small, any layout, OPT anywhere; 1 in 25 padded to exactly 8190..8193 bytes) x hook scripts of 1..10 top-level table calls (flags/set_flags/rcode/set_rcode/opcode/set_opcode/question/raw_packet/add_to_*/rename_with_raw_names/raw_name_from_str/iter_answer|nameservers|additional|edns) whose iter callbacks run nested programs on the cursor (name, rr_type, rr_class, rr_ttl, set_rr_ttl, rr_ip, set_rr_ip, set_raw_name, set_name with/without zone, delete_rr, early stop; each op on every record or on one index). The script is interpreted by cdriver.c (compiled with cc -Wall -Wextra -Werror against /repo/src/bin/c_hook/c_hook.h, called through &fn_table()) and by a native Rust twin on a second object. Oracle: identical traces (every return value, out-buffer content and length, error description), identical final packet bytes, C08 view of the C-driven object; canary-filled arenas around every out-buffer (names NUL-terminated within 256 bytes, exactly 4/16 address bytes, packet written only when it fits); abi_version == DNSSECTOR_ABI_VERSION; sizeof(FnTable) agrees; no crash (cases run in child processes; an abnormal exit is attributed to the case written to the scratch file). Non-trivial: a mutating call inside a callback followed by at least one more call; distinct = hash(packet, script).".into();
     rep.assumptions = vec![
         "documented preconditions respected: rr_ip/set_rr_ip only on A/AAAA with the matching length, accessors only on live cursors inside the callback (after a successful delete_rr only delete_rr again), raw_packet capacity <= 8192, no accessors on EDNS cursors".into(),
         "QR gating as in C08; start packets have no name pointing into the header".into(),
@@ -993,6 +1017,6 @@ pub fn check_c15(ctx: &Ctx, known: &KnownFindings) -> Report {
             }
         }
     }
-    rep.require(&["driver-compiled-against-shipped-header", "top:iter", "top:iter_edns", "top:add", "top:rename", "cb:set_rr_ttl", "cb:set_rr_ip", "cb:set_raw_name", "cb:set_name", "cb:set_name-empty-zone-buffer", "cb:delete_rr", "call-after-callback-mutation", "failing-call", "opt:First", "opt:Middle", "opt:Last"]);
+    rep.require(&["driver-compiled-against-shipped-header", "top:iter", "top:iter_edns", "top:add", "top:rename", "cb:set_rr_ttl", "cb:set_rr_ip", "cb:set_raw_name", "cb:set_name", "cb:set_name-empty-zone-buffer", "cb:delete_rr", "call-after-callback-mutation", "failing-call", "opt:First", "opt:Middle", "opt:Last", "start:exactly-8192-bytes", "start:exactly-8191-bytes", "start:exactly-8193-bytes"]);
     rep
 }
